@@ -672,7 +672,14 @@ class CircuitDAG(CircuitBase):
                 if gate_class is not None:
                     circuit.add(gate_class(register=reg, reg_type=reg_type))
                 else:
-                    circuit_list = [ops.name_to_class_map(letter) for letter in name]
+                    # a wrapper's name is the concatenation of its gates' names; "sdg" is the only
+                    # name longer than one letter
+                    circuit_list = []
+                    rest = name
+                    while rest:
+                        token = "sdg" if rest.startswith("sdg") else rest[0]
+                        circuit_list.append(ops.name_to_class_map(token))
+                        rest = rest[len(token) :]
                     assert None not in circuit_list, (
                         f"Gate not recognized, parsing invalid/"
                         f"{name} parsed to {circuit_list}"
